@@ -349,6 +349,7 @@ PLANS["C18"] = {
     "k": [K("c18::" + h, crate="avk-serde", timeout=900, note=n) for h, n in [
         ("mean", "Mean: arbitrary state -> derived Serialize -> tape -> derived Deserialize: state bit-equal, original untouched, "
                  "re-serialisation identical"),
+        ("counts_full_range", "Mean, Variance, Kurtosis, Covariance, Moments4 with the sample size any u64 >= 2 (counts above 2^53 are reachable by self-merges): restored count identical"),
         ("variance", "Variance"), ("skewness", "Skewness"), ("kurtosis", "Kurtosis"), ("moments4", "crate's Moments4"),
         ("moments5_user", "user-instantiated define_moments!(S5, 5)"), ("minmax", "Min and Max"),
         ("weighted", "WeightedMean and WeightedMeanWithError"), ("covariance", "Covariance"),
